@@ -22,6 +22,11 @@ from common import Check, main_wrapper
 
 
 
+class PadL(list):
+    """hardware padding (top, left, bottom, right) plus `.orig`, the padding the operator was specified with"""
+    orig = None
+
+
 def ntp(h, s, k):
     return max(k - s, 0) if h % s == 0 else max(k - (h % s), 0)
 
@@ -54,13 +59,18 @@ def part_a(ck):
         kd = (k - 1) * d + 1
         add("cps %d %d %d %d %d %d %d %s" % (mode, kd, kd, s, s, H, W, " ".join(map(str, ex or (0, 0, 0, 0)))),
             " ".join(str(int(x)) for x in list(pad) + list(skirt)))
-        return [int(x) for x in pad], [int(x) for x in skirt]
+        p_ = PadL(int(x) for x in pad)
+        # the operator's OUTPUT size follows from the ORIGINAL padding (PAD operator + VALID window), not from what
+        # calc_explicit_padding made of it: a trailing padding it drops must show up as a Spec rejection of the last row
+        p_.orig = [int(x) for x in ex] if mode == 2 else list(p_)
+        return p_, [int(x) for x in skirt]
 
     def one_stripe(H, W, k, s, d, pad, skirt, OH, y0, y1, up, mode, w0=0, split=None, in_domain=True, tag=""):
         """one transform call, its create_padding, and the Spec lines (rows and columns).
         `split = (off_h, off_w, TH, TW)`: the operator reads the slice [off_h, off_h+H) x [off_w, off_w+W) of a TH x TW tensor."""
         kd = (k - 1) * d + 1
-        ow_true = (W + pad[1] + pad[3] - kd) // s + 1 if up == 1 else W * up
+        po = getattr(pad, "orig", pad)
+        ow_true = (W + po[1] + po[3] - kd) // s + 1 if up == 1 else W * up
         OW = max(ow_true, 1)
         concat = [0, w0, 0, 0]
         TH, TW, off_h, off_w = H, W, 0, 0
@@ -107,7 +117,7 @@ def part_a(ck):
                     modes = [(0, None), (1, None)] + [(2, (t, t, b, b)) for t, b in expl]
                     for mode, ex in modes:
                         pad, skirt = calc_pads(mode, k, s, d, H, 9, ex)
-                        OH = (H + pad[0] + pad[2] - kd) // s + 1
+                        OH = (H + pad.orig[0] + pad.orig[2] - kd) // s + 1
                         if OH < 1 or OH > hmax + 1:
                             continue
                         if mode == 2:
@@ -162,7 +172,7 @@ def part_a(ck):
         mode = rng.choice([0, 0, 1, 2])
         ex = (rng.randint(0, kd // 2), 0, rng.randint(0, kd // 2), 0) if mode == 2 else None
         pad, skirt = calc_pads(mode, k, s, d, H, 9, ex)
-        OH = (H + pad[0] + pad[2] - kd) // s + 1
+        OH = (H + pad.orig[0] + pad.orig[2] - kd) // s + 1
         if OH < 1:
             continue
         if mode == 2 and not (pad[0] == kd // 2 or kd // 2 <= s or pad[0] % s == 0):
@@ -285,11 +295,12 @@ def part_b(ck):
 
     def conv_op(H, W, C, k, s, d, mode, step, slices, OC=None, stepw=None, pool=False, conv=True, wo=None, full=None):
         dh, dw = d if isinstance(d, tuple) else (d, d)        # d = (height dilation, width dilation)
-        kern = Kernel(k, k, s, s, dw, dh)
+        sy_, sx_ = s if isinstance(s, tuple) else (s, s)      # s = (vertical stride, horizontal stride)
+        kern = Kernel(k, k, sx_, sy_, dw, dh)
         pad, skirt = tgo.calc_padding_and_skirt(Padding.SAME if mode == 0 else Padding.VALID, kern, Shape4D([1, H, W, C]), None)
         kd = (k - 1) * dh + 1
-        OH = (H + pad[0] + pad[2] - kd) // s + 1
-        OW = (W + pad[1] + pad[3] - ((k - 1) * dw + 1)) // s + 1
+        OH = (H + pad[0] + pad[2] - kd) // sy_ + 1
+        OW = (W + pad[1] + pad[3] - ((k - 1) * dw + 1)) // sx_ + 1
         if OH < 1 or OW < 1:
             return None
         OC = OC or C
@@ -364,6 +375,10 @@ def part_b(ck):
         casc = rng.sample(casc[:-4], 1500) + extra
     for _ in range(300 if not ck.thorough else 3000):
         casc.append((rng.randint(4, 80), rng.randint(1, 9), rng.randint(1, 5), rng.randint(1, 7), rng.randint(1, 3), rng.randint(1, 2), rng.randint(0, 1)))
+    # asymmetric stride (vertical != horizontal) with consumer stripes of several rows: stripe_input / the rolling buffer need the VERTICAL stride
+    for _ in range(300 if not ck.thorough else 3000):
+        casc.append((rng.randint(10, 60), rng.randint(1, 6), rng.randint(2, 4), rng.choice([1, 2, 3, 3, 5]),
+                     rng.choice([(3, 1), (2, 1), (1, 2), (1, 3), (3, 2), (2, 3)]), 1, rng.randint(0, 1)))
     # asymmetric dilation (height factor != width factor): the generator has to take the HEIGHT factor of attrs["dilation"]
     for _ in range(400 if not ck.thorough else 4000):
         casc.append((rng.randint(8, 60), rng.randint(1, 6), rng.randint(1, 3), rng.choice([2, 3, 3, 5]), rng.choice([1, 1, 2]),
@@ -386,6 +401,8 @@ def part_b(ck):
         n_b2 += 1
         if isinstance(d, tuple):
             ck.count("B_cascades_asymmetric_dilation")
+        if isinstance(s, tuple):
+            ck.count("B_cascades_asymmetric_stride")
         add_receptive(spec, spec_meta, real, ops)
         add_rolling(spec, spec_meta, real, ops, ds, cascade_builder, architecture_allocator, Kernel, Shape4D, resampling_mode)
     outs = ck.model(reqs)
@@ -424,6 +441,14 @@ def add_partition(spec, spec_meta, real, d, meta):
     spec_meta.append(("partition", meta))
 
 
+def str_y(m):
+    return m.stride[0] if isinstance(m.stride, (tuple, list)) else m.stride
+
+
+def str_x(m):
+    return m.stride[1] if isinstance(m.stride, (tuple, list)) else m.stride
+
+
 def dil_h(m):
     return m.dilation[0] if isinstance(m.dilation, (tuple, list)) else m.dilation
 
@@ -440,7 +465,7 @@ def add_receptive(spec, spec_meta, real, ops):
             continue
         OH = m.ofm_shape[1]
         pt, pb = (m.pad[0], m.pad[2]) if (c["y0"] == 0 and c["y1"] >= OH) else (c["pt"], c["pb"])
-        spec.append(f"recv {m.kernel_h} {m.stride} {dil_h(m)} {m.pad[0]} {m.ifm_shape[1]} 0 1 0 {c['y0']} {c['y1'] - c['y0']} {c['ifm'][1]} {c['ifm'][5]} {pt} {pb}")
+        spec.append(f"recv {m.kernel_h} {str_y(m)} {dil_h(m)} {m.pad[0]} {m.ifm_shape[1]} 0 1 0 {c['y0']} {c['y1'] - c['y0']} {c['ifm'][1]} {c['ifm'][5]} {pt} {pb}")
         spec_meta.append(("recv", dict(op=c["op"], ifm=m.ifm_shape, ofm=m.ofm_shape, k=m.kernel_h, s=m.stride, dilation=m.dilation, pad=m.pad, skirt=m.skirt,
                                        step=m.step, stripe=[c["y0"], c["y1"]], ifm_rows=[c["ifm"][1], c["ifm"][5]], cmd_pads=[c["pt"], c["pb"]])))
 
@@ -455,26 +480,26 @@ def add_rolling(spec, spec_meta, real, ops, ds, cascade_builder, architecture_al
     for i in range(len(ops) - 1):
         pm, cm = ops[i], ops[i + 1]
         kd = (cm.kernel_h - 1) * dil_h(cm) + 1
-        w_, h_ = architecture_allocator.get_ifm_area_required(Shape4D([1, cm.step[0], cm.step[1], 8]), Kernel(kd, kd, cm.stride, cm.stride, 1, 1),
+        w_, h_ = architecture_allocator.get_ifm_area_required(Shape4D([1, cm.step[0], cm.step[1], 8]), Kernel(kd, kd, str_x(cm), str_y(cm), 1, 1),
                                                               resampling_mode.NONE)
         c_h = min(int(h_), cm.ifm_shape[1])
         from types import SimpleNamespace as NS_
         if hasattr(cascade_builder, "ifm_box_overread"):
             over_ = [int(cascade_builder.ifm_box_overread(NS_(parent_op=NS_(attrs={"skirt": tuple(cm.skirt)}),
-                                                              kernel=Kernel(cm.kernel_h, cm.kernel_h, cm.stride, cm.stride, dil_h(cm), dil_h(cm)))))]
+                                                              kernel=Kernel(cm.kernel_h, cm.kernel_h, str_x(cm), str_y(cm), dil_h(cm), dil_h(cm)))))]
         else:       # tree without the rolling-buffer repair: the buffer it really allocates is judged by the simulation
             over_ = []
         shp = cascade_builder.rolling_buffer_shape(Shape4D([1, pm.step[0], pm.step[1], 8]), Shape4D([1, c_h, min(int(w_), cm.ifm_shape[2]), 8]), *over_)
         stor.append(int(shp.height))
         sk = cm.skirt
-        info.append(dict(p=pm.step[0], c=c_h, B=int(shp.height), s=cm.stride, kdil=kd, skirt_top=sk[0], skirt_bottom=sk[2],
-                         over=cm.stride + sk[0] + sk[2] - kd, slack=int(shp.height) - pm.step[0] - c_h, ifm_h=cm.ifm_shape[1]))
+        info.append(dict(p=pm.step[0], c=c_h, B=int(shp.height), s=str_y(cm), kdil=kd, skirt_top=sk[0], skirt_bottom=sk[2],
+                         over=str_y(cm) + sk[0] + sk[2] - kd, slack=int(shp.height) - pm.step[0] - c_h, ifm_h=cm.ifm_shape[1]))
     stor.append(ops[-1].ofm_shape[1])
     acc = []
     for c in cmds:
         m = ops[c["op"]]
         kd = (m.kernel_h - 1) * dil_h(m) + 1
-        ext = (c["y1"] - c["y0"] - 1) * m.stride + kd - c["pt"] - c["pb"]
+        ext = (c["y1"] - c["y0"] - 1) * str_y(m) + kd - c["pt"] - c["pb"]
         a = c["ifm"][1]
         rT = c["op"]
         acc.append(f"{c['op'] + 1},{stor[c['op']]},{c['y0']},{c['y1']},{rT},{stor[c['op'] - 1] if rT else 0},{a},{max(a + ext, a)}")
@@ -562,7 +587,8 @@ def part_c(ck):
         [("known_pad_tall", 0, 0), ("known_odd_upscale", 0, 0)]
     n = 320 if not ck.thorough else 8000
     profiles = ["cascade_chain", "c10_pad_tall", "cascade", "c10_pool_chain", "c10_upscale", "c10_slice", "c10_dilated", "mixed",
-                "cascade_chain", "elementwise", "weights", "c10_pool_chain", "c10_slice_upscale", "c10_asym_dilation", "c10_asym_dilation"]
+                "cascade_chain", "elementwise", "weights", "c10_pool_chain", "c10_slice_upscale", "c10_asym_dilation", "c10_asym_dilation",
+                "c10_asym_stride"]
     outs = pipe_common.run_corpus(ck, n, profiles=profiles, want={"extra": L.extract})
     reqs, owners = [], []      # Lean Spec requests on real artefacts
     corr, corr_real, corr_owner = [], [], []   # model == real (issue order, create_padding)
